@@ -3,6 +3,7 @@ package loadbalancer
 import (
 	"bufio"
 	"context"
+	"errors"
 	"fmt"
 	"net"
 	"net/http"
@@ -19,6 +20,11 @@ import (
 	"github.com/0xReLogic/Helios/internal/ratelimiter"
 	"github.com/0xReLogic/Helios/internal/utils"
 )
+
+// errBackendFailure reports a proxied exchange that failed (5xx or unreachable
+// backend) to the circuit breaker; the response has already been written and
+// recorded when it is returned
+var errBackendFailure = errors.New("backend request failed")
 
 // Strategy defines the interface for load balancing strategies
 type Strategy interface {
@@ -655,7 +661,7 @@ func (lb *LoadBalancer) ServeHTTP(w http.ResponseWriter, r *http.Request) {
 		}
 	} else {
 		// Execute without circuit breaker
-		if err := lb.handleRequest(w, r, startTime); err != nil {
+		if err := lb.handleRequest(w, r, startTime); err != nil && !errors.Is(err, errBackendFailure) {
 			logger.Error().Err(err).Msg("request handling failed")
 		}
 	}
@@ -730,6 +736,10 @@ func (lb *LoadBalancer) proxyRequest(backend *Backend, w http.ResponseWriter, r 
 	// Record metrics and handle passive health checks
 	lb.recordRequestMetrics(backend, rw.statusCode, startTime, r)
 
+	// Failed proxied requests are what the circuit breaker counts
+	if rw.statusCode >= 500 {
+		return errBackendFailure
+	}
 	return nil
 }
 
